@@ -185,6 +185,11 @@ class NestedQueryPostprocessingTransformation(QueryPostprocessingTransformation)
         super().apply(rule, query)
         # what the nested items did for earlier rules is not part of this rule's processing
         self._nested_pipeline.applied_ids = set()
+        if self._pipeline is not None:
+            # the nested items are part of the pipeline the nest item belongs to: conditions on
+            # the processing state and templates see its state and variables
+            self._nested_pipeline.state = self._pipeline.state
+            self._nested_pipeline.vars = self._pipeline.vars
         query = self._nested_pipeline.postprocess_query(rule, query)
         if self._pipeline is not None:
             self._pipeline.applied_ids.update(self._nested_pipeline.applied_ids)
